@@ -698,6 +698,9 @@ class BaseDiscretizer(BaseEstimator, TransformerMixin):
 
         # adding nans for quantitative features (when nan has been grouped)
         for feature in self.quantitative_features:
+            # only for requested features
+            if feature not in requested_features:
+                continue
             # initiating feature summary (no value/label)
             feature_summary = {"feature": feature, "dtype": self.input_dtypes[feature]}
             # if there are nans -> if already added it will be dropped afterwards (unique content)
